@@ -1,5 +1,5 @@
 #!/venv/bin/python
-"""tools/seedall.py [ID ...] [--jobs N]  - re-confirm every kept seeded change against the check of its property.
+"""tools/seedall.py [ID ...] [--jobs N] [--only W,X]  - re-confirm every kept seeded change against the check of its property.
 
 For each /verif/seeded/<ID>_<X>/ runs tools/seedcheck.py (scratch worktree of /repo HEAD, demo
 without / with the patch, the property's quick check with VERIF_REPO=<scratch>) and prints one line
@@ -47,7 +47,10 @@ def main():
     jobs = int(sys.argv[sys.argv.index("--jobs") + 1]) if "--jobs" in sys.argv else 4
     if "--jobs" in sys.argv:
         args = [a for a in args if a != str(jobs)]
-    seeds = sorted(d for d in os.listdir(ROOT) if os.path.isdir(os.path.join(ROOT, d)) and (not args or d.split("_")[0] in args))
+    only = sys.argv[sys.argv.index("--only") + 1].split(",") if "--only" in sys.argv else None  # e.g. --only W,X : the seeds of one round
+    if only:
+        args = [a for a in args if a != ",".join(only)]
+    seeds = sorted(d for d in os.listdir(ROOT) if os.path.isdir(os.path.join(ROOT, d)) and (not args or d.split("_")[0] in args) and (not only or d.split("_")[1] in only))
     by = {}
     for s in seeds:
         cid = s.split("_")[0]
